@@ -33,6 +33,8 @@ pub mod ctap2;
 pub(crate) mod operation;
 pub use cbor_smol as serde;
 pub mod sizes;
+#[cfg(ctap_types_verif)]
+pub mod verif_hooks;
 pub mod webauthn;
 
 pub use ctap2::{Error, Result};
